@@ -106,7 +106,8 @@ def module_add(rng, variants=VARIANTS, arches=None, invalid=0.25):
           "koji_tag": pick(rng, ["module-%s-%s" % (parts[0], parts[1]), "tag-1"]),
           "modulemd_path": "%s/%s/os/repodata/modules.yaml.gz" % (pick(rng, variants), pick(rng, arches)),
           "category": pick(rng, ["binary", "debug", "source"]),
-          "rpms": [fmt(nevra(rng)) for _ in range(rng.randint(0, 3))]}
+          "rpms": ([fmt(nevra(rng)) for _ in range(rng.randint(0, 3))] if rng.random() < 0.5 else
+                   list(pick(rng, [[], ["a-0:1-1.x86_64"], ["b-0:1-1.noarch", "c-2:2-1.noarch"]])))}
     if rng.random() < 0.2:
         op["rpms_as"] = "tuple"
     if rng.random() < invalid:
